@@ -29,7 +29,7 @@
    succeeds (a coincidence of two hash values mod L). *)
 From Coq Require Import List NArith Bool.
 From Verif Require Import Outcome Cmp.
-From C28 Require Import Model Bytes Proofs Main.
+From C28 Require Import Model Bytes Proofs Main Store StoreSpec StoreProofs.
 Import ListNotations.
 Open Scope N_scope.
 
@@ -161,3 +161,86 @@ Theorem c28_keystore_xsign : forall (G : Type) (smul : N -> G) (encode : G -> by
   end.
 Proof. exact xsign_stored. Qed.
 Print Assumptions c28_keystore_xsign.
+
+(* ---------------------------------------------------------------------------------------------
+   The key store as a whole (C28/Store.v models pseudohsm.go, keycache.go, image.go; C28/StoreSpec.v
+   is the book: per stored key its xprv, alias, CURRENT password, salt and iv, updated by pure
+   bookkeeping).  Extra hypothesis [mac_ideal]: a password deriving another scrypt key never
+   yields the file's MAC (the disjunct "... or Collision" of c28_keystore, as a hypothesis).
+
+   Every sequence of whole operations (create / import, load, reset password, update alias,
+   delete, backup of one store restored into another) on any number of stores, from any
+   well-formed book: the implementation model holds exactly the key files of the book and
+   returns the book's answers. *)
+Theorem c28_store_refines : forall (G : Type) (smul : N -> G) (encode : G -> bytes) kdf ctr mac_hash,
+  (forall k iv n, length (ctr k iv n) = n) -> mac_ideal kdf mac_hash ->
+  forall ops gs, wfsys gs ->
+    run G smul encode kdf ctr mac_hash (realize_sys G smul encode kdf ctr mac_hash gs) ops =
+    (realize_sys G smul encode kdf ctr mac_hash (fst (grun G smul encode kdf ctr mac_hash gs ops)),
+     snd (grun G smul encode kdf ctr mac_hash gs ops)) /\
+    wfsys (fst (grun G smul encode kdf ctr mac_hash gs ops)).
+Proof. exact run_refines. Qed.
+Print Assumptions c28_store_refines.
+
+(* ... and, from empty stores, as long as no key is imported into a store that already holds it
+   (decidable guard [no_dup_import]): at every point EVERY key of the book opens with its current
+   password and returns the stored xprv, a password opens it iff it derives the same scrypt key
+   as the current one, and XSign is derivation and signing with the stored xprv.  After
+   Backup -> Restore the restored keys are keys of the target's book, with the password they
+   had in the source. *)
+Theorem c28_store_holds_outside : forall (G : Type) (smul : N -> G) (encode : G -> bytes) kdf ctr mac_hash,
+  (forall k iv n, length (ctr k iv n) = n) -> mac_ideal kdf mac_hash ->
+  forall hmac512 sha512 ops,
+  no_dup_import G smul encode kdf ctr mac_hash [] ops = true ->
+  let s' := fst (run G smul encode kdf ctr mac_hash [] ops) in
+  let gs' := fst (grun G smul encode kdf ctr mac_hash [] ops) in
+  s' = realize_sys G smul encode kdf ctr mac_hash gs' /\
+  snd (run G smul encode kdf ctr mac_hash [] ops) = snd (grun G smul encode kdf ctr mac_hash [] ops) /\
+  forall sid g, In g (getst gs' sid) ->
+    wf64 (g_key g) /\
+    (forall pw, s_load kdf ctr mac_hash (getst s' sid) (g_xpub G smul encode g) pw =
+                if pw_ok kdf g pw then SOk (g_key g) else SErr SELoad) /\
+    s_load kdf ctr mac_hash (getst s' sid) (g_xpub G smul encode g) (g_pw g) = SOk (g_key g) /\
+    (forall path msg,
+       s_xsign G smul encode kdf ctr mac_hash hmac512 sha512 (getst s' sid) (g_xpub G smul encode g) path msg (g_pw g) =
+       match derive_prv G smul encode hmac512 (g_key g) path with
+       | Ok k' => Ok (sign G smul encode hmac512 sha512 k' msg)
+       | Err _ => Err SELoad
+       | Panic p => Panic p
+       end).
+Proof. exact store_live. Qed.
+Print Assumptions c28_store_holds_outside.
+
+(* FINDING (outside the guard): ImportKeyFromMnemonic / XCreate do not check that the key is new.
+   The same key imported twice under two aliases: both imports succeed, and afterwards NO
+   password opens the key; it can be neither deleted nor re-keyed (every lookup is ambiguous).
+   For all primitives. *)
+Theorem c28_refuted_duplicate_import : forall (G : Type) (smul : N -> G) (encode : G -> bytes) kdf ctr mac_hash
+    raw a1 pw1 s1 i1 a2 pw2 s2 i2,
+  a1 <> a2 ->
+  let xp := xpub_bytes G smul encode (key_of raw) in
+  exists e1 e2,
+    run G smul encode kdf ctr mac_hash [] [SCreate 0 raw a1 pw1 s1 i1; SCreate 0 raw a2 pw2 s2 i2]
+    = ([(0, [e1; e2])], [obs_store [e1]; obs_store [e1; e2]]) /\
+    (forall pw, s_load kdf ctr mac_hash [e1; e2] xp pw = SErr SELoad) /\
+    (forall pw, s_delete kdf ctr mac_hash [e1; e2] xp pw = SErr SEAmbiguous) /\
+    (forall old new s i, s_reset kdf ctr mac_hash [e1; e2] xp old new s i = SErr SEAmbiguous).
+Proof. exact dup_import_refuted. Qed.
+Print Assumptions c28_refuted_duplicate_import.
+
+(* FINDING (outside whole operations): ResetPassword does not hold the HSM lock between reading
+   and writing the key file.  ResetPassword reads the file (correct password), UpdateKeyAlias
+   renames the key, ResetPassword writes the file back with the alias it read: afterwards NO
+   password opens the key (the file's alias is not the cache's alias).  For every stored key
+   and all primitives. *)
+Theorem c28_refuted_reset_alias_race : forall (G : Type) (smul : N -> G) (encode : G -> bytes) kdf ctr mac_hash,
+  (forall k iv n, length (ctr k iv n) = n) ->
+  forall g na new salt iv, wf64 (g_key g) -> na <> g_alias g ->
+  let st := [realize G smul encode kdf ctr mac_hash g] in
+  let xp := g_xpub G smul encode g in
+  exists l st1,
+    reset_begin kdf ctr mac_hash st xp (g_pw g) = SOk l /\
+    s_alias st xp na = SOk st1 /\
+    forall pw, s_load kdf ctr mac_hash (reset_finish kdf ctr mac_hash st1 xp l new salt iv) xp pw = SErr SELoad.
+Proof. exact reset_alias_race_refuted. Qed.
+Print Assumptions c28_refuted_reset_alias_race.
